@@ -390,6 +390,30 @@ def random_case(rng):
             # loaded (with the class matching the file) and rendered earlier through the same
             # loader; never the root itself
             case['history'] = [names[rng.randrange(1, nfiles)] for _ in range(rng.randrange(1, 3))]
+        if rng.random() < 0.5:
+            # a small cache bound: templates are evicted and parsed again; with more earlier loads
+            case['cache'] = rng.choice([0, 1, 1, 2, 2, 3])
+            if nfiles > 1:
+                case['history'] = [names[rng.randrange(1, nfiles)]
+                                   for _ in range(rng.randrange(1, 7))]
+    return case
+
+
+def random_lru_case(rng):
+    """a loader with a small cache bound, several load-and-render calls through it (any file,
+    the root's among them, repeated), then the root: templates are evicted and parsed again"""
+    case = random_case(rng)
+    # acyclic graphs only: every call of a history over a cyclic graph runs into the recursion
+    # limit, which costs a second each (cycles are covered by the single-render cases)
+    while len(case['files']) < 2 or any(cyclic(dict(case, files=[f] + [g for g in case['files'] if g is not f]))
+                                        for f in case['files']):
+        case = random_case(rng)
+    names = [f['name'] for f in case['files']]
+    case['root'] = {'kind': 'load', 'cls': rng.choice(['arg', 'default'])}
+    case['cfg'] = {'tmpl': 'dflt', 'loader': rng.choice(['off', 'off', 'off', 'on', 'dflt']), 'opt': ['absent'],
+                   'auto_reload': rng.random() < 0.4}
+    case['cache'] = rng.choice([0, 1, 1, 2, 2, 3])
+    case['history'] = [rng.choice(names) for _ in range(rng.randrange(2, 9))]
     return case
 
 
